@@ -133,7 +133,7 @@ PIPELINES = {
         "min_events": 500,
     },
     "csrparse": {
-        "variants": ["ring"],
+        "variants": ["ring", "awslc"],
         "mc": [{"module": "MC_CsrParse", "workers": 4, "emits": False}],
         "drivers": [{"name": "all", "cmd": ["csr-parse", "{out}", "{tier}"], "random": True, "timeout": 3000}],
         "min_events": 200,
